@@ -31,9 +31,14 @@ def m_cmp(t: T) -> Optional[Tuple[str, T, T]]:
 
 
 def m_arrcall(t: T, *names: str) -> Optional[List[T]]:
-    """jnp.<name>(args) -> positional args."""
+    """jnp.<name>(args) -> positional args.  Asking for "abs" also accepts the builtin abs(x), np.absolute / fabs:
+    they are the same function on arrays."""
     if t.op == "call" and array_fn(t) in names:
         return call_parts(t)[1]
+    if "abs" in names and t.op == "call":
+        fn = func_name(t) or ""
+        if fn == "builtins.abs" or fn.split(".")[-1] in ("absolute", "fabs"):
+            return call_parts(t)[1]
     return None
 
 
